@@ -1675,4 +1675,108 @@ theorem deframe_prepared {cfg : Cfg} {meth url : Str} {headers : List (Str × St
       exact ⟨.contentLength, ds.flatten, by simp [hlen], hpb⟩
 
 
+/-! ## failures after the head was written -/
+
+theorem sendChunks_err {ch : Bool} {cs : List Chunk} {e : Exc} (h : (sendChunks ch cs).err = some e) :
+    e = .unicodeEncodeError ∧ chunksPayload cs = none := by
+  induction cs with
+  | nil => simp [sendChunks] at h
+  | cons c t ih =>
+    simp only [sendChunks] at h
+    split at h
+    · have := ih h
+      exact ⟨this.1, by simp [chunksPayload, this.2]⟩
+    · split at h
+      · rename_i e' hd
+        simp at h; subst h
+        cases c with
+        | bytes b => simp [Chunk.data] at hd
+        | buf b k => simp [Chunk.data] at hd
+        | str s =>
+          simp only [Chunk.data, encodeUtf8] at hd
+          split at hd
+          · rename_i hs
+            simp at hd
+            exact ⟨hd.symm, by simp [chunksPayload, chunkBytes, hs]⟩
+          · simp at hd
+      · simp only at h
+        have := ih h
+        exact ⟨this.1, by simp [chunksPayload, this.2]⟩
+
+/-- bodies that are consumed (and whose `str` pieces are encoded) while the body is being sent -/
+def LazyText : Body → Prop
+  | .iter _ _ => True
+  | .file f => f.text = true
+  | _ => False
+
+theorem bodyToChunks_lazy {body : Body} {m : Str} {bs : Nat} {cc : ChunksCL} {cs : List Chunk} (hbs : 0 < bs)
+    (h : bodyToChunks body m bs = .ok cc) (hc : cc.chunks = some cs) (hn : chunksPayload cs = none) :
+    payload body = none ∧ LazyText body := by
+  cases body with
+  | none => simp [bodyToChunks] at h; subst h; simp at hc
+  | bytes b => simp [bodyToChunks] at h; subst h; simp at hc; subst hc; simp [chunksPayload, chunkBytes] at hn
+  | str s =>
+    simp only [bodyToChunks, bind, Except.bind] at h
+    split at h
+    · simp at h
+    · simp [pure, Except.pure] at h; subst h; simp at hc; subst hc; simp [chunksPayload, chunkBytes] at hn
+  | buffer b k => simp [bodyToChunks] at h; subst h; simp at hc; subst hc; simp [chunksPayload, chunkBytes] at hn
+  | file f =>
+    simp [bodyToChunks] at h; subst h
+    simp only [Option.some.injEq] at hc
+    subst hc
+    cases ht : f.text with
+    | true =>
+      simp only [ht, if_true] at hn
+      have e : (blocks bs (f.content.drop f.pos)).map (fun d => Chunk.str d) = (blocks bs (f.content.drop f.pos)).map Chunk.str := rfl
+      rw [e, chunksPayload_str_blocks, blocks_flatten bs hbs] at hn
+      exact ⟨by simp [payload, ht, hn], ht⟩
+    | false =>
+      simp only [ht, Bool.false_eq_true, if_false] at hn
+      have e : (blocks bs (f.content.drop f.pos)).map (fun d => Chunk.bytes d) = (blocks bs (f.content.drop f.pos)).map Chunk.bytes := rfl
+      rw [e, chunksPayload_bytes_blocks] at hn
+      simp at hn
+  | iter cs' one =>
+    simp [bodyToChunks] at h; subst h
+    simp only [Option.some.injEq] at hc
+    subst hc
+    exact ⟨hn, trivial⟩
+
+theorem serialize_error_cases {cfg : Cfg} {meth url : Str} {hs : List (Str × Str)} {body : Body} {ch : Bool} {e : Exc}
+    (hbs : 0 < cfg.blocksize) (h : serialize cfg meth url hs body ch = .error e) :
+    (prepare cfg meth url hs body ch = .error e ∧ wireWritten cfg meth url hs body ch = []) ∨
+    (∃ p, prepare cfg meth url hs body ch = .ok p ∧ (bodyPhase p).err = some e ∧
+      wireWritten cfg meth url hs body ch = headBytes p.lines ++ (bodyPhase p).written ∧
+      e = .unicodeEncodeError ∧ payload body = none ∧ LazyText body) := by
+  unfold serialize request at h
+  cases hp : prepare cfg meth url hs body ch with
+  | error e' =>
+    simp [hp] at h
+    subst h
+    exact Or.inl ⟨rfl, by simp [wireWritten, request, hp]⟩
+  | ok p =>
+    right
+    simp only [hp] at h
+    split at h
+    · rename_i e' herr
+      simp only [Except.error.injEq] at h
+      subst h
+      refine ⟨p, rfl, herr, by simp [wireWritten, request, hp], ?_⟩
+      obtain ⟨l0, cc, fr, ua, hs', _, _, hcc, _, _, _, rfl⟩ := prepare_inv hp
+      unfold bodyPhase at herr
+      simp only at herr
+      cases hcs : cc.chunks with
+      | none => simp [hcs] at herr
+      | some cs =>
+        simp only [hcs] at herr
+        cases hse : (sendChunks fr.chunked cs).err with
+        | none => simp [hse] at herr
+        | some e2 =>
+          simp [hse] at herr
+          subst herr
+          obtain ⟨he, hnone⟩ := sendChunks_err hse
+          obtain ⟨hpay, hlazy⟩ := bodyToChunks_lazy hbs hcc hcs hnone
+          exact ⟨he, hpay, hlazy⟩
+    · simp at h
+
 end U3.Wire
